@@ -23,7 +23,7 @@ ASSUMPTIONS = [
     'bool is not used as an Integer/Number value or List item; Selector/ListSelector objects are int/float/str literals',
     'ClassSelector class_ and List item_type are drawn from the literal types (int, float, str) and tuples of them',
 ]
-REQUIRED = {'class_level_edits_after_first_schema': 30, 'states_validated': 1500, 'oob_probes': 500, 'schemas_checked': 300, 'customised_instances': 50, 'deep_hierarchy_cases': 40, 'list_item_type_edits': 20}
+REQUIRED = {'bare_selector_states': 10, 'class_level_edits_after_first_schema': 30, 'states_validated': 1500, 'oob_probes': 500, 'schemas_checked': 300, 'customised_instances': 50, 'deep_hierarchy_cases': 40, 'list_item_type_edits': 20}
 
 KEYWORDS = {'type', 'anyOf', 'enum', 'minimum', 'maximum', 'exclusiveMinimum', 'exclusiveMaximum', 'minItems', 'maxItems',
             'items', 'additionalItems', 'format', 'properties', 'description', 'title', 'allOf', 'oneOf', 'const',
@@ -74,7 +74,38 @@ def conf_class(s):
     return '/'.join(c)
 
 
+def bare_selector_case(idx, rng, P, rep):
+    """Selectors declared without any objects (they take, and remember, whatever they are given): the schema is well formed
+    from the start and describes every state the object goes through."""
+    param = _st['param']
+    js = _st['js']
+    K = type(f'BS{idx}', (param.Parameterized,), dict(e=param.Selector(), n=param.Integer(default=1)))
+    o = K() if rng.random() < 0.5 else K
+    desc = dict(kind='selector-without-objects', level='instance' if o is not K else 'class')
+    for step in range(rng.randint(1, 4)):
+        try:
+            schema = json.loads(json.dumps(o.param.schema()))
+            js.Draft7Validator.check_schema(schema['e'])
+            rep.count('schemas_checked')
+        except Exception as e:   # noqa: BLE001
+            rep.violation('C16/Selector/schema-not-well-formed/no-objects', f'schema of a Selector declared without objects (holding {o.e!r}, objects '
+                          f'{list(o.param.e.objects)!r}): {type(e).__name__}: {str(e)[:200]}', case=desc)
+            break
+        data = json.loads(o.param.serialize_parameters())
+        rep.count('states_validated')
+        rep.count('bare_selector_states')
+        errs = list(js.Draft7Validator(schema['e']).iter_errors(data['e']))
+        if errs:
+            rep.violation('C16/Selector/valid-state-rejected/no-objects', f'e={o.e!r} serialised {data["e"]!r} rejected by {schema["e"]!r}: '
+                          f'{errs[0].message[:160]}', case=desc)
+            break
+        o.e = rng.choice(['a', 5, 2.5, 'b', None])
+    rep.case(('selector-without-objects', desc['level']), True)
+
+
 def run_case(idx, rng, P, rep):
+    if rng.random() < 0.03:
+        return bare_selector_case(idx, rng, P, rep)
     param = _st['param']
     js = _st['js']
     n = rng.randint(2, 6)
